@@ -238,16 +238,6 @@ def Accepted (S : Schema) : Bool :=
    S.directives.all (fun d =>
      decide ((d.args.map (·.name)).Nodup) && d.args.all (fun a => wfRef a.ty && S.isInputRef a.ty)))
 
-/-- Domain of the property, second part (open findings F-10g / F-13g): every directive argument's type
-    is visible to the request. `schema.New` does not enforce anything of the kind; for field arguments
-    the corresponding statement is a consequence of `Accepted` (`fieldOk`). -/
-def DirArgsVisible (S : Schema) (F : Feats) : Bool :=
-  S.directives.all (fun d => d.args.all (fun a => S.visible F a.ty.base))
-
-/-- The feature-independent form: no directive argument type carries required features. -/
-def DirArgsUngated (S : Schema) : Bool :=
-  S.directives.all (fun d => d.args.all (fun a => S.reqOf a.ty.base == []))
-
 /-- Domain of the property: the *query* root type carries no required features (a gated query root
     would have to be deleted by `erase`, leaving no schema at all — `schema.New` insists on a query
     type). Gated mutation / subscription root types are inside the domain: after fix 04 the code treats
@@ -433,13 +423,23 @@ def fragApplies (S : Schema) (objT fragT : String) : Bool :=
     else false
   | none => false
 
-/-- `__schema { directives { name args } }` (introspection.go:105-122, 404-411): every directive with
-    every argument — NO feature test on the argument types. -/
-def directivesListing (S : Schema) : List DirectiveDef := S.directives
+/-- `DirectiveDefinition.VisibleArguments(features)` (directive.go, fix 05): an argument is shown when
+    its type's required features are all enabled. -/
+def dirArgShown (S : Schema) (F : Feats) (a : Arg) : Bool := reqOk F (S.reqOf a.ty.base)
 
-/-- `s.Directives()[name].Arguments` as consulted by the validator (type_info.go:81-97,
-    validate_arguments.go:15-18): no feature test either. -/
-def directiveArgs (S : Schema) (dn : String) : Option (List Arg) :=
+/-- `__schema { directives { name args } }` (introspection.go `directives`, `__Directive.args` after fix
+    05): every directive, with the arguments `VisibleArguments(ctx.Features)` shows. -/
+def directivesListing (S : Schema) (F : Feats) : List DirectiveDef :=
+  S.directives.map (fun d => { d with args := d.args.filter (dirArgShown S F) })
+
+/-- `s.Directives()[name].VisibleArguments(features)` as consulted by the validator (type_info.go,
+    validate_arguments.go after fix 05) and by the executor's field collection. -/
+def directiveArgs (S : Schema) (F : Feats) (dn : String) : Option (List Arg) :=
+  (S.directives.find? (fun d => d.name == dn)).map (fun d => d.args.filter (dirArgShown S F))
+
+/-- The two accessors before fix 05 (no feature test) — kept for the negation witness. -/
+def directivesListingUnfixed (S : Schema) : List DirectiveDef := S.directives
+def directiveArgsUnfixed (S : Schema) (dn : String) : Option (List Arg) :=
   (S.directives.find? (fun d => d.name == dn)).map (·.args)
 
 /-- Everything a request with features `F` can ask the schema, in one record. Functions taking a
@@ -486,12 +486,16 @@ def view (S : Schema) (F : Feats) : View :=
     resolveCandidates := resolveCandidates S F
     fragApplies := fragApplies S
     lookupRaw := lookupRaw S
-    directivesListing := directivesListing S
-    directiveArgs := directiveArgs S }
+    directivesListing := directivesListing S F
+    directiveArgs := directiveArgs S F }
 
 /-- The root types as consulted before fix 04 (no feature test) — kept for the negation witness. -/
 def viewRootsUnfixed (S : Schema) (F : Feats) : View :=
   { view S F with mutationType := S.mutation, subscriptionType := S.subscription }
+
+/-- The directive accessors as consulted before fix 05 — kept for the negation witness. -/
+def viewDirectivesUnfixed (S : Schema) (F : Feats) : View :=
+  { view S F with directivesListing := directivesListingUnfixed S, directiveArgs := directiveArgsUnfixed S }
 
 /-- `validateSpread` over a view. -/
 def View.spreadPossible (v : View) (fragT parentT : String) : Bool :=
